@@ -376,3 +376,7 @@ def run(tape) -> Outcome:
     else:
         run_concurrent(tape, out)
     return out
+
+from sim.core import guarded as _guarded  # noqa: E402
+
+run = _guarded(run, 240.0)
